@@ -111,7 +111,9 @@ theorem C09_next_functional (top : Goal St K → St → Strm St K) (n m : Nat) (
   rw [a] at b
   exact Option.some.inj b
 
-/-! ### hash-iteration order and finite-domain programs -/
+/-! ### hash-iteration order and finite-domain programs (both modes of Spec/FDSem.lean) -/
+section FDOrder
+variable [Mode]
 
 /-- the valuations described by the state a constraint program reaches do not depend on the iteration order
     of the hash-based constraint store / domain store / extension (two runs with different hash seeds: `ord`,
@@ -121,6 +123,8 @@ theorem C09_order_independent_fd {ord ord' : Order} (ho : OrderOK ord) (ho' : Or
     (as : List FAtom) (hok : ∀ a ∈ as, a.OK) (st1 st2 : State)
     (h1 : postAllF ord (State.empty n) as = .ok st1) (h2 : postAllF ord' (State.empty n) as = .ok st2) (γ : Subst) :
     Sem NoI γ st1 ↔ Sem NoI γ st2 := (fd_order_free ho ho' n as as (List.Perm.refl _) hok).1 st1 st2 h1 h2 γ
+
+end FDOrder
 
 
 section Examples
